@@ -261,8 +261,14 @@ func execC14Bubble(r *kernel.Run, s C14Spec) {
 			cred := keyshareCred(w, key, userSecret, ks, bigs(int64(1000+w.hr.IntN(1000)), 2000, 3000), b.Nonrev)
 			var stmts map[int][]*rangeproof.Statement
 			if b.Range {
+				// both kinds of statement: what fixes the statement is part of the challenge input, which
+				// travels to the keyshare server
 				ge, _ := rangeproof.NewStatement(rangeproof.GreaterOrEqual, big.NewInt(1))
-				stmts = map[int][]*rangeproof.Statement{2: {ge}}
+				le, _ := rangeproof.NewStatement(rangeproof.LesserOrEqual, big.NewInt(1<<40))
+				stmts = map[int][]*rangeproof.Statement{2: {ge}, 3: {le}}
+				if w.hr.IntN(2) == 0 {
+					stmts = map[int][]*rangeproof.Statement{2: {le}}
+				}
 			}
 			db, err := cred.CreateDisclosureProofBuilder([]int{1}, stmts, b.Nonrev)
 			if err != nil {
@@ -305,8 +311,12 @@ func execC14Bubble(r *kernel.Run, s C14Spec) {
 		if err != nil {
 			return err
 		}
-		cs.challenge = new(big.Int).Set(ch) // MergeProofP overwrites the shared challenge object: keep a copy
-		cs.wire3 = mustJSON(rr)
+		cs.challenge = new(big.Int).Set(ch)
+		w3, merr := json.Marshal(rr)
+		if merr != nil {
+			return fmt.Errorf("the request to the keyshare server cannot be encoded: %v", merr)
+		}
+		cs.wire3 = w3
 		return nil
 	}
 	finish := func(cs *c14Session, wire4 []byte) (gabi.ProofList, *gabi.ProofP, error) {
